@@ -1,16 +1,19 @@
-\* exhaustive: I => P (refinement), repaired reset test
+\* exhaustive: I => P (Conforms), repaired code; one grouped remedy, window-length changes
 CONSTANTS
-  Remedy = {"r1", "r2"}
-  Group = {"a", "b", "u"}
-  W <- cW
+  Remedy = {"r1"}
+  Group = {"a", "u"}
+  W0 <- cW
+  WChoices = {2, 4}
   Allowed <- cAllowed
   Pct <- cPct
   DefBehav <- cDefBehav
   DefPct <- cDefPct
-  MaxNow = 7
+  MaxNow = 8
   Steps = {1, 2}
   StrictAfter = TRUE
-SPECIFICATION ISpec
-PROPERTY Refines
+  StaleWindow = FALSE
+  MaxSetW = 2
+SPECIFICATION IPSpec
+PROPERTIES Conforms Isolation
 INVARIANT PerWindow
 CHECK_DEADLOCK FALSE
